@@ -195,7 +195,8 @@ func intsKey(xs []int) string {
 type payload struct {
 	Spec    sortSpec `json:"spec"`
 	Family  string   `json:"family"`
-	Mixed   bool     `json:"mixed_shapes"` // the index of the key fields differs between record types (position varies / key absent)
+	Mixed   bool     `json:"mixed_shapes"` // the index of the key fields differs between record types (same number of fields)
+	Omit    bool     `json:"key_absent"`   // some records lack the (single, first-position) key field
 	Records []string `json:"records"`      // ZSON of record id i+1
 	recs    []zed.Value
 	recSize int
@@ -303,7 +304,16 @@ func randomSpec(rng *rand.Rand) sortSpec {
 // 1..K such that class i < class i+1 under the operator's comparator.
 func (e *sortEnv) makePayload(rng *rand.Rand, keys []int, K int) *payload {
 	u := e.u
-	p := &payload{Spec: randomSpec(rng), Family: familyNames[rng.Intn(len(familyNames))], Mixed: rng.Intn(3) == 0, zctx: zed.NewContext()}
+	p := &payload{Spec: randomSpec(rng), Family: familyNames[rng.Intn(len(familyNames))], zctx: zed.NewContext()}
+	// Heterogeneous record shapes expose the known finding F-C06-2; they are kept
+	// apart (and panic-free: a cached field index is always < the number of fields
+	// of any record type in the payload) so that the other payloads stay clean.
+	switch x := rng.Intn(6); {
+	case x == 0 || x == 1:
+		p.Mixed = true // same fields, different positions
+	case x == 2 && len(p.Spec.Keys) == 1:
+		p.Omit = true // key first or absent
+	}
 	fam := u.family(p.Family)
 	cmp := p.Spec.comparator(u.zctx)
 	nk := len(p.Spec.Keys)
@@ -375,7 +385,7 @@ func (e *sortEnv) makePayload(rng *rand.Rand, keys []int, K int) *payload {
 			m.vals = append(m.vals, xlate(p.zctx, u.vals[tok-1].val))
 		}
 		// a null single key may also be an absent field (missing == null for sort)
-		if p.Mixed && nk == 1 && m.vals[0].IsNull() && rng.Intn(2) == 0 {
+		if p.Omit && m.vals[0].IsNull() && rng.Intn(2) == 0 {
 			m.omit = true
 		}
 		members[i] = m
@@ -457,6 +467,7 @@ type sortWitness struct {
 	Got     []string `json:"got,omitempty"`
 	Want    []int    `json:"want_ids,omitempty"`
 	Mixed   bool     `json:"mixed_shapes"`
+	Omit    bool     `json:"key_absent"`
 	Family  string   `json:"family,omitempty"`
 }
 
@@ -546,7 +557,7 @@ func (e *sortEnv) checkGroup(cases []sortCase, K int) {
 	for _, sc := range cases {
 		memMax := sc.Limit * p.recSize
 		rows, ids, spills, err := e.runSort(p.zctx, prog, p.recs, sc.Sizes, memMax)
-		w := sortWitness{Kind: "sort", Program: prog, Spec: p.Spec, Records: p.Records, Sizes: sc.Sizes, MemMax: memMax, Mixed: p.Mixed, Family: p.Family, Got: rows, Want: sc.Out}
+		w := sortWitness{Kind: "sort", Program: prog, Spec: p.Spec, Records: p.Records, Sizes: sc.Sizes, MemMax: memMax, Mixed: p.Mixed, Omit: p.Omit, Family: p.Family, Got: rows, Want: sc.Out}
 		ties := false
 		seen := map[int]bool{}
 		for _, k := range sc.Keys {
@@ -555,7 +566,7 @@ func (e *sortEnv) checkGroup(cases []sortCase, K int) {
 			}
 			seen[k] = true
 		}
-		c.Eval(fmt.Sprintf("sort|%s|%s|%d|%s|%s|%v", intsKey(sc.Keys), intsKey(sc.Sizes), sc.Limit, prog, p.Family, p.Mixed), len(spills) > 0 || ties)
+		c.Eval(fmt.Sprintf("sort|%s|%s|%d|%s|%s|%v", intsKey(sc.Keys), intsKey(sc.Sizes), sc.Limit, prog, p.Family, p.Mixed || p.Omit), len(spills) > 0 || ties)
 		c.Add("sort_runs_replayed", 1)
 		if len(spills) > 0 {
 			c.Add("sort_cases_with_spill", 1)
@@ -580,7 +591,7 @@ func (e *sortEnv) checkGroup(cases []sortCase, K int) {
 		spilled := len(spills) > 0
 		if clause != "" {
 			sig := fmt.Sprintf("sort-%s:%s:%s", clause, map[bool]string{true: "spilled", false: "in-memory"}[spilled], specClass(p.Spec))
-			if p.Mixed && len(spills) >= 2 && len(results) > 0 && results[0].runs == 0 {
+			if (p.Mixed || p.Omit) && len(spills) >= 2 && len(results) > 0 && results[0].runs == 0 {
 				// known shape F-C06-2: only when the in-memory run of the same input was fine
 				if cl, _ := e.oracle(p.zctx, p.Spec, p.recs, inRows, results[0].rows, results[0].ids); cl == "" {
 					sig = sigF2
@@ -599,10 +610,10 @@ func (e *sortEnv) checkGroup(cases []sortCase, K int) {
 	for i := 1; i < len(results); i++ {
 		if !flowh.Equal(results[0].rows, results[i].rows) {
 			sig := "sort-limit-dependent:" + specClass(p.Spec)
-			if p.Mixed && results[i].runs >= 2 {
+			if (p.Mixed || p.Omit) && results[i].runs >= 2 {
 				sig = sigF2
 			}
-			w := sortWitness{Kind: "sort", Program: prog, Spec: p.Spec, Records: p.Records, Sizes: g.Sizes, MemMax: results[i].lim * p.recSize, MemRef: results[0].lim * p.recSize, Mixed: p.Mixed, Family: p.Family, Got: results[i].rows}
+			w := sortWitness{Kind: "sort", Program: prog, Spec: p.Spec, Records: p.Records, Sizes: g.Sizes, MemMax: results[i].lim * p.recSize, MemRef: results[0].lim * p.recSize, Mixed: p.Mixed, Omit: p.Omit, Family: p.Family, Got: results[i].rows}
 			c.Violate(sig, fmt.Sprintf("`%s` over the same %d values gives a different result with sort.MemMaxBytes=%d (%d runs) than with %d (%d runs)", prog, len(p.recs), results[i].lim*p.recSize, results[i].runs, results[0].lim*p.recSize, results[0].runs), w)
 		}
 	}
